@@ -71,6 +71,7 @@ def run_case(case, ctx):
     o, dbg = S.opts(case, L)
     key = json.dumps([case["t"], case["ts"], case["o"]], ensure_ascii=False, sort_keys=True)
     cls = case["g"]
+    C.perturb(ctx, case["t"], ts, {k: v for k, v in o.items() if k != "timeout"})
     mon.begin()
     mon.events["api_call"] += 1
     stage = "ctparse"
